@@ -89,7 +89,7 @@ CHECKS = {
         ref='DESIGN.md 4/C19'),
     'C20': dict(
         technique='TLC model checking of all interleavings of two threads at write granularity (as implemented: counterexamples = known findings; with a lock: holds) + deterministic schedule enumeration on the real code validated by TLC',
-        text='MC: spec/MC_LoaderMT.tla - two threads run enforce (load steps at the granularity of every write to the shared rule store, file-rule record and caches; look-up; evaluation) around one edit in every interleaving, twelve scenarios: with Locked=TRUE AtomicDecision and SettledCorrect hold, as implemented TLC finds the counterexamples. Conformance: every schedule with one or two context switches at every source-line boundary of the reloading call (and of a call started before the edit) is executed on the real code with real threads handed over by events; spec/Conf_LoaderMT.tla computes old and new policy from the loader specification and checks each decision and the settled state; wrong decisions are keyed by scenario/shape/projected rule store so that the windows of the unchanged tree are listed in known_findings.json and any other window is reported.',
+        text='MC: spec/MC_LoaderMT.tla - two threads run enforce (load steps at the granularity of every write to the shared rule store, file-rule record and caches; look-up; evaluation) around one edit in every interleaving, thirteen scenarios: with Locked=TRUE AtomicDecision and SettledCorrect hold, as implemented TLC finds the counterexamples. Conformance: every schedule with one or two context switches at every source-line boundary of the reloading call (and of a call started before the edit) is executed on the real code with real threads handed over by events; spec/Conf_LoaderMT.tla computes old and new policy from the loader specification and checks each decision and the settled state; wrong decisions are keyed by scenario/shape/projected rule store so that the windows of the unchanged tree are listed in known_findings.json and any other window is reported.',
         ref='DESIGN.md 4/C20',
         note='preemption at source-line granularity (the quantifier of C20); CPython can also switch inside a line. Trusted: ' + TB),
 }
